@@ -102,6 +102,84 @@ func symAffine(name string, v ssa.Value) Affine {
 // evaluation (per-case evaluation of a type switch); nil outside such scopes.
 var affineEnv map[*ssa.Phi]ssa.Value
 
+// affineGlobal resolves a package-level integer variable to the value stored
+// by its initialiser when nothing else in the library touches the variable
+// (installGlobalValues); nil otherwise.
+var affineGlobal func(g *ssa.Global) ssa.Value
+
+// installGlobalValues: a package-level variable of integer type counts as a
+// named constant when the only store to it is the one of the package
+// initialiser and every other use in the library is a plain load.
+func (c *Ctx) installGlobalValues() {
+	type info struct {
+		val   ssa.Value
+		dirty bool
+	}
+	var tab map[*ssa.Global]*info
+	build := func() {
+		tab = map[*ssa.Global]*info{}
+		get := func(g *ssa.Global) *info {
+			if tab[g] == nil {
+				tab[g] = &info{}
+			}
+			return tab[g]
+		}
+		var fns []*ssa.Function
+		fns = append(fns, c.P.LibFunctions()...)
+		seenInit := map[*ssa.Function]bool{}
+		for _, fn := range c.P.LibFunctions() {
+			if fn.Pkg != nil {
+				if in := fn.Pkg.Func("init"); in != nil && !seenInit[in] {
+					seenInit[in] = true
+					fns = append(fns, in)
+				}
+			}
+		}
+		done := map[*ssa.Function]bool{}
+		for _, fn := range fns {
+			if done[fn] {
+				continue
+			}
+			done[fn] = true
+			isInit := fn.Name() == "init" && fn.Signature.Recv() == nil
+			instrsOf(fn, func(i ssa.Instruction) {
+				var ops []*ssa.Value
+				for _, op := range i.Operands(ops) {
+					if op == nil || *op == nil {
+						continue
+					}
+					g, ok := (*op).(*ssa.Global)
+					if !ok {
+						continue
+					}
+					in := get(g)
+					switch x := i.(type) {
+					case *ssa.UnOp:
+						if x.Op == token.MUL {
+							continue // plain load
+						}
+					case *ssa.Store:
+						if x.Addr == ssa.Value(g) && isInit && in.val == nil && x.Val != ssa.Value(g) {
+							in.val = x.Val
+							continue
+						}
+					}
+					in.dirty = true
+				}
+			})
+		}
+	}
+	affineGlobal = func(g *ssa.Global) ssa.Value {
+		if tab == nil {
+			build()
+		}
+		if in := tab[g]; in != nil && !in.dirty && in.val != nil && isNumeric(in.val.Type()) {
+			return in.val
+		}
+		return nil
+	}
+}
+
 // affineOf evaluates an integer SSA value.
 func affineOf(v ssa.Value, depth int) Affine {
 	if v == nil {
@@ -169,8 +247,63 @@ func affineOf(v ssa.Value, depth int) Affine {
 		if x.Op == token.SUB {
 			return affineOf(x.X, depth+1).scale(-1)
 		}
+		if g, isG := x.X.(*ssa.Global); isG && x.Op == token.MUL && affineGlobal != nil {
+			if iv := affineGlobal(g); iv != nil {
+				if a := affineOf(iv, depth+1); a.isConst() {
+					return a
+				}
+			}
+		}
+	case *ssa.Extract:
+		if madeNonNeg(x) {
+			return symAffine("len(made:"+resolvedPath(v)+")", v)
+		}
 	}
 	return symAffine(resolvedPath(v), v)
+}
+
+// madeNonNeg: v is a result of a library function which, on every return,
+// hands back at that position the very value it has just used as the length
+// or capacity of a make: had it been negative the make would have panicked
+// (and that make is judged on its own by T1), so here it is not.
+func madeNonNeg(v *ssa.Extract) bool {
+	call, ok := v.Tuple.(*ssa.Call)
+	if !ok {
+		return false
+	}
+	callee := call.Call.StaticCallee()
+	if callee == nil || callee.Blocks == nil {
+		return false
+	}
+	rets := 0
+	for _, b := range callee.Blocks {
+		ret, isRet := b.Instrs[len(b.Instrs)-1].(*ssa.Return)
+		if !isRet {
+			continue
+		}
+		rets++
+		if v.Index >= len(ret.Results) {
+			return false
+		}
+		res := ir.StripConv(ret.Results[v.Index])
+		if k, isK := ir.ConstInt(res); isK && k >= 0 {
+			continue
+		}
+		found := false
+		instrsOf(callee, func(i ssa.Instruction) {
+			m, isM := i.(*ssa.MakeSlice)
+			if !isM || !(ir.StripConv(m.Len) == res || ir.StripConv(m.Cap) == res) {
+				return
+			}
+			if m.Block() == b || m.Block().Dominates(b) {
+				found = true
+			}
+		})
+		if !found {
+			return false
+		}
+	}
+	return rets > 0
 }
 
 // nonNegSym: the symbol denotes a quantity that is never negative (a length,
@@ -186,7 +319,33 @@ func nonNegSym(name string, v ssa.Value) bool {
 	if b, ok := t.Underlying().(*types.Basic); ok && b.Info()&types.IsUnsigned != 0 {
 		return true
 	}
+	if ph, ok := ir.StripConv(v).(*ssa.Phi); ok {
+		return phiNonNeg(ph)
+	}
 	return false
+}
+
+// phiNonNeg: induction over a loop variable — every incoming value is a
+// non-negative combination of non-negative quantities, where the phis under
+// examination count as non-negative themselves (the hypothesis; some incoming
+// value of each must not depend on them, or nothing would ever flow in).
+var phiAssumed = map[*ssa.Phi]bool{}
+
+func phiNonNeg(ph *ssa.Phi) bool {
+	if phiAssumed[ph] {
+		return true
+	}
+	if len(phiAssumed) > 6 {
+		return false
+	}
+	phiAssumed[ph] = true
+	defer delete(phiAssumed, ph)
+	for _, e := range ph.Edges {
+		if !nonNegCombination(affineOf(e, 0)) {
+			return false
+		}
+	}
+	return true
 }
 
 // nonNegCombination: e is a sum of non-negative symbols with non-negative
